@@ -954,6 +954,11 @@ func ext۰reflect۰Value۰IsValid(fr *frame, args []value) value {
 func ext۰reflect۰Value۰Set(fr *frame, args []value) value {
 	a := rVMustAddr(args[0], "Value.Set")
 	t := rV2T(args[0]).t
+	if src, ok := args[1].(structure)[0].(rtype); !ok || src.t == nil {
+		panic(targetPanic{iface{t: errorType, v: "reflect: call of reflect.Value.Set on zero Value"}})
+	} else if !types.AssignableTo(src.t, t) {
+		panic(targetPanic{iface{t: errorType, v: "reflect.Set: value of type " + src.t.String() + " is not assignable to type " + t.String()}})
+	}
 	v := rV2V(args[1])
 	if _, isIface := t.Underlying().(*types.Interface); isIface {
 		if _, already := v.(iface); !already {
